@@ -271,9 +271,11 @@ theorem C06_no_cross_client (ops : List Op) (hs : ∀ op ∈ ops, SaneOp op) (k 
     with rx = origin is on record, and then origin = req.rx and the transmit timestamp is
     that exchange's recorded transmit time, which is later than its receive timestamp and
     was recorded for this very client; otherwise origin = req.tx and the transmit timestamp
-    encodes a software transmit time strictly later than the receive time. -/
+    encodes a software transmit time strictly later than the receive time (and, the clock
+    reading being less than 2^30 s after the receive time, is `Later` than the reply's receive
+    timestamp). -/
 theorem C06_reply_contract (ops : List Op) (hs : ∀ op ∈ ops, SaneOp op) (id : Nat) (req : Req)
-    (rxt now : Int) :
+    (rxt now : Int) (hnow : now < rxt + window) :
     let st := run tssCap tssItemCap init ops
     let r := handleRequest tssCap tssItemCap st id req rxt now
     r.reply.rx = ofTime r.rxt ∧ rxt ≤ r.rxt ∧ r.rxt < r.txt ∧
@@ -283,7 +285,8 @@ theorem C06_reply_contract (ops : List Op) (hs : ∀ op ∈ ops, SaneOp op) (id 
     (r.reply.inter = true → r.reply.org = req.rx ∧
       ∃ it e, st.items.find id = some it ∧ e ∈ it.buf ∧ e.rx = req.org ∧ r.reply.tx = e.tx ∧
         e.owner = id ∧ Later e.rx e.tx) ∧
-    (r.reply.inter = false → r.reply.org = req.tx ∧ r.reply.tx = ofTime r.txt) := by
+    (r.reply.inter = false → r.reply.org = req.tx ∧ r.reply.tx = ofTime r.txt ∧
+      Later r.reply.rx r.reply.tx) := by
   intro st r
   have inv := C06_inv_run tssCap tssItemCap (by decide) (by decide) (by decide) ops hs init (inv_init _ _)
   have h1 := C06_rx_echo_unique true tssCap tssItemCap (by decide) st inv id req rxt now
@@ -296,7 +299,12 @@ theorem C06_reply_contract (ops : List Op) (hs : ∀ op ∈ ops, SaneOp op) (id 
     exact ⟨a, it, e, b, c, d, f, g, hh⟩
   · intro hb
     have := C06_basic_shape true tssCap tssItemCap st id req rxt now hb
-    exact ⟨this.1, this.2.1⟩
+    refine ⟨this.1, this.2.1, ?_⟩
+    show Later (handleRequestG true tssCap tssItemCap st id req rxt now).reply.rx
+      (handleRequestG true tssCap tssItemCap st id req rxt now).reply.tx
+    rw [this.2.1, h1.1]
+    unfold window at hnow
+    exact later_ofTime _ _ h5.1 (by have := h1.2.1; have := h5.2; omega)
 
 /-! ### finding F9: the code as it was at the pinned commit
 
